@@ -19,4 +19,18 @@ def judge (sent recv : List String) (rest err : Nat) : Option String :=
     | some w => some s!"the frames of writer {w} are not its messages in its order: received {recv.filter (writerOf · == w)}"
     | none => none
 
+/-- A write that was held up in the middle of a frame (`wrs`): `sent` lists the messages whose write reported success.  On a
+    connection that stays open the stream must be exactly those messages — in particular no bytes of a frame that was
+    given up may be left in front of later frames (`rest`); on a connection that was closed, whatever was received must at
+    least be written messages in order. -/
+def judgeStalled (sent recv : List String) (rest err : Nat) (closed : Bool) : Option String :=
+  if err != 0 then some s!"{err} frames of the stream do not decode"
+  else if closed then
+    match recv.find? (fun d => !sent.contains d) with
+    | some d => some s!"received {d}, which no successful write produced"
+    | none => none
+  else if rest != 0 then
+    some s!"{rest} bytes of a frame that was not completed stay in the stream of a connection that is still in use ({recv.length} of {sent.length} successfully written messages were received)"
+  else judge sent recv rest err
+
 end CoapVerif.Spec.WritePath
